@@ -44,9 +44,6 @@ from pyvc.api import Bounded
 from twisted.names import dns
 from twisted.python import log as _tlog
 
-ALLOWED = (EOFError, ValueError)
-
-
 # ----------------------------------------------------------------------------
 # per-input deadline
 # ----------------------------------------------------------------------------
@@ -67,10 +64,11 @@ def _can_alarm():
     return hasattr(signal, "setitimer") and threading.current_thread() is threading.main_thread()
 
 
-def run_with_deadline(fn, seconds):
+def run_with_deadline(fn, seconds, retry=True):
     """-> (kind, value, timed_out).  kind is 'ret' or 'exc'.  timed_out is true when the deadline fired, even if
-    the code under test swallowed the interruption (DNSDatagramProtocol catches BaseException)."""
-    before = _fired[0]
+    the code under test swallowed the interruption (DNSDatagramProtocol catches BaseException).  `fn` must be
+    re-runnable: a run that hits the deadline is repeated once with four times the allowance, so that a stall of
+    the machine (collector pause, swapping) is not mistaken for a decoder that loops."""
     if not _can_alarm():
         t0 = time.time()
         try:
@@ -78,20 +76,28 @@ def run_with_deadline(fn, seconds):
         except BaseException as e:  # noqa: B902 - the property is about *every* exception type
             r = ("exc", e)
         return r[0], r[1], (time.time() - t0) > seconds
+    before = _fired[0]
+    r = None
     old = signal.signal(signal.SIGALRM, _on_alarm)
     try:
-        signal.setitimer(signal.ITIMER_REAL, seconds)
         try:
-            r = ("ret", fn())
-        except _Deadline as e:
-            r = ("exc", e)
-        except BaseException as e:  # noqa: B902
-            r = ("exc", e)
+            signal.setitimer(signal.ITIMER_REAL, seconds)      # one shot: fires at most once
+            try:
+                r = ("ret", fn())
+            except BaseException as e:  # noqa: B902 - includes _Deadline
+                r = ("exc", e)
         finally:
             signal.setitimer(signal.ITIMER_REAL, 0)
+    except _Deadline as e:
+        # fired in the window between fn finishing and the timer being disarmed
+        if r is None:
+            r = ("exc", e)
     finally:
         signal.signal(signal.SIGALRM, old)
-    return r[0], r[1], _fired[0] != before
+    late = _fired[0] != before
+    if late and retry:
+        return run_with_deadline(fn, 4 * seconds, retry=False)
+    return r[0], r[1], late
 
 
 def deadline_for(data):
@@ -198,9 +204,9 @@ RDATA_OFF = RDLEN_OFF + 2
 
 def ref_walk(data, off):
     """Classify the name starting at data[off:].
-    ('ok', labels, next_off) | ('eof',) | ('loop',) | ('reserved',)
+    ('ok', labels, next_off, pointers_followed) | ('eof',) | ('loop',) | ('reserved',)
     next_off: where the enclosing structure continues (after the zero octet, or after the first pointer)."""
-    labels, seen, nxt, p, n = [], set(), None, off, len(data)
+    labels, seen, nxt, p, n, hops = [], set(), None, off, len(data), 0
     while True:
         if p in seen:
             return ("loop",)
@@ -210,12 +216,13 @@ def ref_walk(data, off):
         b = data[p]
         kind = b & 0xC0
         if b == 0:
-            return ("ok", labels, p + 1 if nxt is None else nxt)
+            return ("ok", labels, p + 1 if nxt is None else nxt, hops)
         if kind == 0xC0:
             if p + 1 >= n:
                 return ("eof",)
             if nxt is None:
                 nxt = p + 2
+            hops += 1
             p = ((b & 0x3F) << 8) | data[p + 1]
         elif kind == 0:
             if p + 1 + b > n:
@@ -299,7 +306,7 @@ def check_message_bytes(data):
     limit = deadline_for(data)
     kind, val, late = run_with_deadline(lambda: direct_decode(data), limit)
     if late:
-        return "Message.fromStr did not finish within %.0f s on %d bytes" % (limit, len(data))
+        return "Message.fromStr did not finish within %.0f s (nor within %.0f s when re-run) on %d bytes" % (limit, 4 * limit, len(data))
     out = classify(kind, val)
     if out == "other":
         return "Message.fromStr raised %r (only EOFError / ValueError are malformed-packet errors)" % (val,)
@@ -454,31 +461,32 @@ class NameDecodeVersusWalker(Bounded):
              "stream position as the RFC 1035 walker), raises EOFError/ValueError on truncation and on every "
              "pointer cycle, within the deadline")
     scope = ("all buffers of <= 5 bytes over {00,01,02,03,04,3f,c0,ff} and of <= 4 bytes with 40 and 80 added (thorough: <= 6 bytes over "
-             "{00,01,02,03,04,05,3f,40,80,c0,c1,ff}), decoding started at every offset 0..len; plus pointer rings of "
-             "1..64 (thorough 1..16383) hops; exhaustive")
+             "{00,01,02,03,04,05,3f,c0,ff}, <= 5 bytes with 40, 80, c1 added), decoding started at every offset 0..len, exhaustive; plus pointer "
+             "rings and acyclic pointer chains of 1..64 (thorough 1..16383) hops; thorough adds 20 000 seeded random "
+             "buffers of < 24 bytes")
     functions = ["Name.decode", "readPrecisely"]
 
     def cases(self, tier, rng):
         if tier == "quick":
             alpha, top = bytes([0, 1, 2, 3, 4, 0x3F, 0xC0, 0xFF]), 5
         else:
-            alpha, top = bytes([0, 1, 2, 3, 4, 5, 0x3F, 0x40, 0x80, 0xC0, 0xC1, 0xFF]), 6
+            alpha, top = bytes([0, 1, 2, 3, 4, 5, 0x3F, 0xC0, 0xFF]), 6
         for k in range(0, top + 1):
             for t in itertools.product(alpha, repeat=k):
                 buf = bytes(t)
                 for off in range(0, k + 1):
                     yield (buf, off)
-        if tier == "quick":
-            for k in range(1, 5):
-                for t in itertools.product(alpha + b"\x40\x80", repeat=k):
-                    if 0x40 in t or 0x80 in t:
-                        for off in range(0, k + 1):
-                            yield (bytes(t), off)
+        extra = b"\x40\x80" if tier == "quick" else b"\x40\x80\xc1"
+        for k in range(1, 5 if tier == "quick" else 6):
+            for t in itertools.product(alpha + extra, repeat=k):
+                if any(x in t for x in extra):
+                    for off in range(0, k + 1):
+                        yield (bytes(t), off)
         hops = (1, 2, 3, 7, 64) if tier == "quick" else (1, 2, 3, 7, 64, 255, 256, 4096, 16383)
         for h in hops:
             ring = b"".join(w_ptr(2 * ((i + 1) % h)) for i in range(h))
             yield (ring, 0)
-            chain = b"".join(w_ptr(2 * (i + 1)) for i in range(h)) + b"\x01z\x00"      # acyclic: must decode to "z"
+            chain = b"".join(w_ptr(2 * (i + 1)) for i in range(h)) + b"\x01z\x00"      # acyclic: decodes to "z"
             yield (chain, 0)
             yield (chain[:-1], 0)                                                       # same chain, terminator cut
         if tier != "quick":
@@ -488,15 +496,21 @@ class NameDecodeVersusWalker(Bounded):
                 yield (buf, rng.randrange(n))
 
     def nontrivial(self, case):
-        return 0xC0 in case[0] or len(case[0]) > 2
+        return any(b >= 0xC0 for b in case[0][case[1]:])      # the name being decoded starts a pointer somewhere
 
     def check(self, case):
         buf, off = case
         ref = ref_walk(buf, off)
-        s = BytesIO(buf)
-        s.seek(off)
-        nm = dns.Name()
-        kind, val, late = run_with_deadline(lambda: nm.decode(s), deadline_for(buf))
+        box = []
+
+        def decode():
+            s, nm = BytesIO(buf), dns.Name()
+            s.seek(off)
+            box[:] = [s, nm]
+            nm.decode(s)
+
+        kind, val, late = run_with_deadline(decode, deadline_for(buf))
+        s, nm = box
         if late:
             return "Name.decode did not finish (reference classifies the name as %s)" % ref[0]
         out = classify(kind, val)
@@ -506,7 +520,11 @@ class NameDecodeVersusWalker(Bounded):
             return None
         if ref[0] == "ok":
             if out != "msg":
-                return "a finite, in-bounds name (labels %r) was rejected with %s" % (ref[1], out)
+                # a decoder may cap indirections or the 255-octet name length (RFC 1035 2.3.4) and still be total:
+                # acceptance is demanded only for names well inside such limits
+                if ref[3] <= 16 and sum(len(x) + 1 for x in ref[1]) < 255:
+                    return "a finite, in-bounds name (labels %r, %d pointers) was rejected with %s" % (ref[1], ref[3], out)
+                return None
             if nm.name != b".".join(ref[1]):
                 return "decoded %r, reference labels %r" % (nm.name, ref[1])
             if s.tell() != ref[2]:
@@ -578,11 +596,13 @@ class RecordMutationsTotal(Bounded):
     title = ("valid one-record messages of every record type and every single mutation of them (truncation, rdlength, "
              "counts, byte, compression pointer): decode finishes with a message or EOFError/ValueError on all "
              "three protocol paths")
-    scope = ("27 RFC record types + OPT + 4 unassigned types, 1..4 valid RDATA variants each (inline names and "
+    scope = ("the 26 record types of RFC 1035/1183/2782/2874/2915/4255/6672/7208/8945 + OPT + 4 other type codes, 1..4 "
+             "valid RDATA variants each (inline names and "
              "compression pointers), in the answer/authority/additional section; every truncation, 13 rdlength values, "
              "5 values for each section count, 8 (thorough 15) boundary values at every byte position, a pointer "
              "overwrite to 10 targets at every position, a pointer insertion at every position; rdata-only records "
-             "with every rdata of <= 2 bytes over 6 values and rdlength 0..3; hand-made pointer rings of 1..8 hops in "
+             "with every rdata of <= 2 bytes over 6 values and rdlength 0..3; every type code 0..255 with 4 generic "
+             "payloads; hand-made pointer rings of 1..8 hops in "
              "the question, owner and rdata names; thorough adds all pairs (truncation or rdlength) x (byte or pointer) "
              "and seeded random triple mutations")
     functions = ["Message.decode", "Message.parseRecords", "Message.lookupRecordType", "RRHeader.decode", "Name.decode",
@@ -723,7 +743,7 @@ class CoverageGuidedTotal(Bounded):
     scope = ("corpus = valid one-record messages of every type + hand-made pointer shapes; 9 mutation operators "
              "(truncate, boundary byte, bit flip, pointer overwrite/insert, 16-bit field rewrite, slice "
              "duplicate/delete, splice, insert); an input joins the corpus when it adds a line arc in "
-             "twisted/names/dns.py; 6 000 inputs quick, 250 000 thorough; seeded, not exhaustive")
+             "twisted/names/dns.py; 20 000 inputs quick, 250 000 thorough; seeded, not exhaustive")
     functions = ["Message.fromStr", "Message.decode", "Message.parseRecords", "Name.decode", "Charstr.decode",
                  "Record_*.decode", "UnknownRecord.decode", "DNSDatagramProtocol.datagramReceived",
                  "DNSProtocol.dataReceived"]
@@ -731,7 +751,7 @@ class CoverageGuidedTotal(Bounded):
     def cases(self, tier, rng):
         corpus = [seed_message(t, v) for t in ALL_TYPES for v in range(len(RDATA[t]))]
         corpus += list(itertools.islice(cycle_messages(), 0, None, 7))
-        total = 6000 if tier == "quick" else 250000
+        total = 20000 if tier == "quick" else 250000
         target = dns.__file__
         if target.endswith((".pyc", ".pyo")):
             target = target[:-1]
@@ -764,22 +784,26 @@ class CoverageGuidedTotal(Bounded):
                     sys.settrace(None)
 
             try:
-                run_with_deadline(body, 5.0)
+                late = run_with_deadline(body, 1.0, retry=False)[2]
             finally:
                 sys.settrace(None)
-            return new[0]
+            return new[0], late
 
         if guided:
-            for d in corpus:
-                trace_run(d)
+            for d in list(corpus):
+                if trace_run(d)[1]:
+                    yield d                  # a seed that does not finish: let the check report it right away
+                    corpus.remove(d)
         for _ in range(total):
             d = corpus[rng.randrange(len(corpus))]
             for _k in range(rng.choice((1, 1, 2, 3))):
                 d = random_mutation(d, rng, corpus)
             if len(d) > 4096:
                 d = d[:4096]
-            if guided and trace_run(d) and len(corpus) < 4000:
-                corpus.append(d)
+            if guided:
+                new, late = trace_run(d)
+                if new and not late and len(corpus) < 4000:
+                    corpus.append(d)
             yield d
 
     def nontrivial(self, case):
@@ -797,7 +821,7 @@ class TcpSegmentedDelivery(Bounded):
     prop = "C33"
     title = ("a length-prefixed frame given to DNSProtocol.dataReceived in every 2-way split and byte-at-a-time: "
              "same outcome as one delivery; only EOFError/ValueError may escape")
-    scope = ("frames around 30 messages (valid records of 8 types, truncated headers, pointer rings, 1- and 2-byte "
+    scope = ("frames around 16 messages (valid records of 8 types, truncated headers, pointer rings, 1- and 2-byte "
              "bodies), alone and followed by a second frame; every 2-way split of the stream, and one byte at a time")
     functions = ["DNSProtocol.dataReceived", "Message.fromStr"]
 
